@@ -447,6 +447,66 @@ func c08shadow(c *engine.Ctx, k *c08canary, only string) {
 	}
 }
 
+// c08history: what an earlier sandboxed interpreter of the same process evaluated (declarations under the names of
+// the withheld primitives go into process-wide tables) must not widen what a later sandboxed interpreter offers.
+func c08history(c *engine.Ctx, k *c08canary, only string) {
+	var names []string
+	for n := range zygo.SystemFunctions() {
+		names = append(names, n)
+	}
+	names = append(names, "sys", "import", "include", "req")
+	sort.Strings(names)
+	m := k.menu()
+	attempts := []string{
+		"(sys " + m[3] + ")", "(import " + m[5] + ")", "(include " + m[0] + ")", "(source " + m[0] + ")", "(system " + m[3] + ")", "(slurpf " + m[1] + ")", "(getenv " + m[4] + ")",
+		"(writef " + m[2] + " \"x\")", "(req " + strings.Trim(m[0], `"`) + ")", "(eval (quote (sys " + m[3] + ")))", "(defmac mh08 [] ^(import " + m[5] + ")) (mh08)",
+	}
+	c01registryReset() // remember the registry of a process in which no script has run yet
+	for _, n := range names {
+		for di, decl := range []string{"(struct " + n + " [])", "(defmap " + n + ")", "(def " + n + " 1)", "(defn " + n + " [& a] 1)", "(struct " + n + " [(field X: int64 e:0)]) (def v08 (" + n + " X:1))"} {
+			w := fmt.Sprintf("HIST|%s|%d", n, di)
+			if !(only == "" && c.Mine() || only == w) {
+				continue
+			}
+			c.Begin(w)
+			first := c08newEnv("sandbox+std")
+			c08eval(first, decl) // may be refused: fine
+			env := c08newEnv("sandbox+std")
+			for _, src := range attempts {
+				r := c08eval(env, src)
+				c.Count("history_calls", 1)
+				c.Evals++
+				viol := func(clause, detail string) {
+					c.Violation(clause, fmt.Sprintf("C08/history-%s/%s", clause, n), w, detail+"\n  an earlier sandboxed interpreter evaluated "+decl+"; a fresh one then: "+src)
+				}
+				if r.timeout {
+					env = c08newEnv("sandbox+std")
+					continue
+				}
+				if b := k.breach(); b != "" {
+					viol("outside-world-changed", b)
+					k.restore()
+				}
+				if x := c08leak(r.val); x != "" {
+					viol("leak-value", "the returned value contains "+x)
+				}
+				if _, bound := env.VerifGlobal("CANARYMARK"); bound {
+					viol("file-executed", "the canary source file was evaluated")
+					env = c08newEnv("sandbox+std")
+				}
+				if _, bound := env.VerifGlobal("cpk"); bound {
+					viol("file-executed", "the canary package file was imported")
+					env = c08newEnv("sandbox+std")
+				}
+			}
+			env.Close()
+			first.Close()
+			c01registryReset()
+			c.Outcome(w)
+		}
+	}
+}
+
 // c08alias: every function the sandbox does offer, bound by the script under the name of an outside-world primitive,
 // and then called by that name, through the quoted symbol, and through apply. What a function may do must not depend
 // on the name it is called by.
@@ -545,7 +605,7 @@ func c08all(c *engine.Ctx, only string) {
 			if strings.ContainsAny(n, "()[]{}\"' `") || n == "" {
 				continue
 			}
-			if strings.HasPrefix(only, "DYN|") || strings.HasPrefix(only, "CLI|") || strings.HasPrefix(only, "SHADOW|") || strings.HasPrefix(only, "ALIAS|") {
+			if strings.HasPrefix(only, "DYN|") || strings.HasPrefix(only, "CLI|") || strings.HasPrefix(only, "SHADOW|") || strings.HasPrefix(only, "ALIAS|") || strings.HasPrefix(only, "HIST|") {
 				break
 			}
 			if only != "" && only != config+"|"+n {
@@ -565,6 +625,9 @@ func c08all(c *engine.Ctx, only string) {
 	if only == "" || strings.HasPrefix(only, "DYN|") {
 		c08dynamic(c, k, only)
 	}
+	if only == "" || strings.HasPrefix(only, "HIST|") {
+		c08history(c, k, only)
+	}
 	if only == "" || strings.HasPrefix(only, "CLI|") {
 		c08cli(c, k)
 	}
@@ -575,7 +638,7 @@ func init() {
 		ID:    "C08",
 		Level: "exploration",
 		Rule: "configurations {NewZlispSandbox(), sandbox + StandardSetup()} x every name bound in that interpreter (read from the interpreter itself, so an added primitive is seen) + the 24 special forms of the compiler + the setup macros x every argument vector of length 0..2 (thorough 3) over an 9-item canary menu " +
-			"(path of a canary source file, of a secret file, of a new file, a shell command writing a file, the name of a canary environment variable, a canary package file, a shell command printing the secret file, 0, a symbol) x call routes {direct, alias, apply, macro, inside a function, eval of a quoted form, infix, eval at macro-expansion time and as expectError operand (both run in a duplicate of the interpreter)}; plus every outside-world primitive of the full interpreter reached for by a name computed at run time (str2sym / eval / apply / cons, 7 routes x 9 x 3 argument vectors); plus, after the script itself has bound each of those names (as value, function, macro), 13 reach attempts in later evaluations; plus every function the sandbox offers bound under each of those names and called by that name / quoted symbol / apply with 8 canary vectors; plus 25 forms through `zygo -c` under 6 flag sets that contain -sandbox (with -demo in both orders, -exitonfail, -no-liner ...); " +
+			"(path of a canary source file, of a secret file, of a new file, a shell command writing a file, the name of a canary environment variable, a canary package file, a shell command printing the secret file, 0, a symbol) x call routes {direct, alias, apply, macro, inside a function, eval of a quoted form, infix, eval at macro-expansion time and as expectError operand (both run in a duplicate of the interpreter)}; plus every outside-world primitive of the full interpreter reached for by a name computed at run time (str2sym / eval / apply / cons, 7 routes x 9 x 3 argument vectors); plus, after the script itself has bound each of those names (as value, function, macro), 13 reach attempts in later evaluations; plus every function the sandbox offers bound under each of those names and called by that name / quoted symbol / apply with 8 canary vectors; plus, after an earlier sandboxed interpreter of the same process declared a struct / defmap / value / function under each of those names, 11 reach attempts in a fresh sandboxed interpreter; plus 25 forms through `zygo -c` under 6 flag sets that contain -sandbox (with -demo in both orders, -exitonfail, -no-liner ...); " +
 			"after every call: canary directory byte-identical, no new file, canary variable unchanged, no secret in the value or on stdout, the canary source not evaluated, process alive",
 		Assumptions:   []string{"effects other than file / process / environment / exit (e.g. network) have no canary", "calls that do not return within 4 s are counted as blocked, not judged"},
 		QuickDeadline: 170 * time.Second,
